@@ -97,7 +97,7 @@ def write_instance(name, inst, fixes, check, workdir, emit):
     c.update(inst)
     th = set(c["threads"])
     prog = c["prog"]
-    if prog:
+    if prog and not c.get("prefix"):
         # a fixed program is its own bound
         for k in ["MaxOps", "MaxSpans", "MaxRoots", "MaxTraces", "MaxScopes", "MaxLocal", "MaxAtt", "MaxLs"]:
             c[k] = max(c[k], 9)
@@ -130,6 +130,7 @@ MCInner == {tla_val(set(c['inner']))}
     for f in ALL_FIXES:
         cfg.append(f"  {f} = {tla_val(f in fixes)}")
     cfg.append('  Mut = "%s"' % c.get("mut", "none"))
+    cfg.append("  Prefix = %s" % tla_val(bool(c.get("prefix", False))))
     cfg += ["SPECIFICATION Spec", "VIEW view", "CHECK_DEADLOCK FALSE", "INVARIANT NoViolation"]
     if emit == "terminal":
         cfg.append("INVARIANT Emit")
@@ -312,22 +313,46 @@ def harness_opts(c):
     return o
 
 
-def probe(steps):
+def probe(steps, spans=False):
     out = []
+    live = []
     for i, st in enumerate(steps):
         out.append(st)
-        if st.get("ev") != "call" or st.get("op") in ("exit", "flush", "ctxl"):
+        if st.get("ev") == "call":
+            if st.get("op") in ("root", "rootctx", "child", "childl", "mknoop") and "h" in st:
+                live.append(st["h"])
+            elif st.get("op") in ("drop", "fnew") and st.get("h") in live:
+                live.remove(st["h"])
+        if st.get("ev") != "call" or st.get("op") in ("exit", "flush", "ctxl", "ctxs"):
             continue
         # not while the call is still in progress: its further pushes are separate steps of that thread
         nxt = next((x for x in steps[i + 1:] if x.get("t") == st.get("t") and x.get("ev") in ("call", "push")), None)
         if nxt is not None and nxt.get("ev") == "push":
             continue
         out.append(dict(ev="call", t=st["t"], op="ctxl"))
+        if spans:
+            # ... and SpanContext::from_span of every handle that is alive
+            for h in live:
+                out.append(dict(ev="call", t=st["t"], op="ctxs", h=h))
+    return out
+
+
+def mark_tails(steps):
+    """A poll of an adapter whose next poll is the final one: an exactly sized inner stream knows
+    (its size_hint then has upper bound 0)."""
+    polls = [i for i, st in enumerate(steps) if st.get("ev") == "call" and st.get("op") == "fpoll"]
+    out = list(steps)
+    for k, i in enumerate(polls):
+        nxt = next((j for j in polls[k + 1:] if steps[j].get("f") == steps[i].get("f")), None)
+        if nxt is not None and steps[nxt].get("fin"):
+            out[i] = dict(steps[i], tail=True)
     return out
 
 
 def replay(behaviours, c, tag, seed):
     """Runs the behaviours through the harness (restarting it after a hang). Returns (trace path, stats)."""
+    if any(st.get("op") == "fpoll" for b in behaviours[:50] for st in b["steps"]):
+        behaviours = [dict(b, steps=mark_tails(b["steps"])) for b in behaviours]
     d = os.path.join(OUT, "replay", tag)
     shutil.rmtree(d, ignore_errors=True)
     os.makedirs(d)
@@ -335,7 +360,7 @@ def replay(behaviours, c, tag, seed):
     open(trace, "w").close()
     if c.get("probe_ctx"):
         # a context query after every call: pure, so it changes nothing, and Abs checks each answer
-        behaviours = [dict(b, steps=probe(b["steps"])) for b in behaviours]
+        behaviours = [dict(b, steps=probe(b["steps"], c.get("probe_spans", False))) for b in behaviours]
     todo = list(enumerate(behaviours))
     stats = dict(runs=0, misses=0, hung=0, restarts=0)
     part = 0
